@@ -20,7 +20,8 @@ from . import lib
 def run(ctx):
     q = ctx.quick
     if ctx.replay:
-        raise lib.ToolError("re-run the check: inputs are regenerated from the seed")
+        ctx.regenerate()
+        q = ctx.quick
     rec = ctx.path("rec.ndjson")
     # small scope, exhaustive: every cell sequence of <= 3 (thorough 4) cells over FlowGen's eight kinds x widths 1..5 x wrap x glyph
     # settings, plus a seeded sample of the sequences of <= 5 (thorough 6) cells
